@@ -19,3 +19,13 @@ func verifRoundTripAddressDecMap(w0 io.Writer, r0 io.Reader, x AddressDecMap) (y
 	decErr = y.Decode(r0)
 	return y, nil, decErr
 }
+
+func verifRoundTripAddressMapArray(w0 io.Writer, r0 io.Reader, x AddressMapArray) (y AddressMapArray, encErr, decErr error) {
+	encErr = x.Encode(w0)
+	if encErr != nil {
+		return y, encErr, nil
+	}
+	verifLink(w0, r0)
+	decErr = y.Decode(r0)
+	return y, nil, decErr
+}
